@@ -403,9 +403,24 @@ def c17_run(run, binary, cases, tag):
 
 def c17_rerun(run, binary, rng, tier):
     n = 0
-    for _ in range(20 if tier == "quick" else 800):
-        nodes, lay = qa.gen_program(rng, nstmts=rng.randint(4, 15), max_q=4, measure_p=0.2, if_p=0.15, reset_p=0.1, gate_defs=1, depth=2)
-        other, _ = qa.gen_program(rng, nstmts=4, max_q=3, measure_p=0.1, gate_defs=0, depth=1)
+    X = lambda r, i: ("apply", "x", [("q", r, i)], [])
+    # more classical bits than qubits (and the reverse), conditions on high classical bits, both modes' worth of measurements
+    fixed = [
+        [("qreg", "q", 1), ("creg", "a", 1), ("creg", "b", 1), X("q", 0), ("measure", ("q", "q", 0), ("q", "b", 0)), ("if", "b", 1, X("q", 0))],
+        [("qreg", "q", 2), ("creg", "c", 4), X("q", 1), ("measure", ("q", "q", 1), ("q", "c", 3)), ("if", "c", 8, X("q", 0)),
+         ("measure", ("q", "q", 0), ("q", "c", 2)), ("if", "c", 12, ("apply", "h", [("q", "q", 1)], []))],
+        [("qreg", "q", 3), ("creg", "c", 1), ("apply", "h", [("r", "q")], []), ("measure", ("q", "q", 2), ("q", "c", 0)), ("if", "c", 1, X("q", 0)),
+         ("reset", ("q", "q", 1))],
+        [("qreg", "q", 1), ("creg", "c", 5), ("apply", "h", [("q", "q", 0)], []), ("measure", ("q", "q", 0), ("q", "c", 4)), ("if", "c", 16, X("q", 0)),
+         ("if", "c", 0, ("apply", "h", [("q", "q", 0)], []))],
+    ]
+    small = [("qreg", "p", 1), ("apply", "h", [("q", "p", 0)], [])]
+    for k in range(len(fixed) + (20 if tier == "quick" else 800)):
+        if k < len(fixed):
+            nodes, other = fixed[k], small
+        else:
+            nodes, lay = qa.gen_program(rng, nstmts=rng.randint(4, 15), max_q=4, measure_p=0.2, if_p=0.15, reset_p=0.1, gate_defs=1, depth=2)
+            other, _ = qa.gen_program(rng, nstmts=4, max_q=3, measure_p=0.1, gate_defs=0, depth=1)
         seed = rng.randrange(1 << 30)
         line = "rerun %d %s %s" % (seed, qasmcheck.hexs(qa.p_program(nodes)), qasmcheck.hexs(qa.p_program(other)))
         out = run_harness(binary, "qasm", [("0", line)], deadline=30.0)["0"]
@@ -417,7 +432,7 @@ def c17_rerun(run, binary, rng, tier):
             continue
         reports = out[3:].split(" | nout")[0].split(" / ")
         if len(set(r.strip() for r in reports)) != 1:
-            run.violation({"what": "reset + finish (or init with the same / another interpreter) does not reproduce the run from |0..0>",
+            run.violation({"what": "reset + finish (or init with the same / another interpreter) does not reproduce the run from Sym::new",
                            "reports": [r[:200] for r in reports], "source_chunks": [qa.p_program(nodes)], "seed": seed})
     return n
 
@@ -439,6 +454,15 @@ def c18_cases(rng, tier):
                 [("apply", "z", [("q", "q", 1)], []), ("measure", ("q", "q", 0), ("q", "c", 1)), ("apply", "h", [("q", "q", 1)], [])]):
         sessions.append({"chunks": [good0, pre + [zz], cont], "bad": [1], "seed": 6})
     sessions.append({"chunks": [good0, [("if", "zz", 1, ("apply", "x", [("q", "q", 1)], []))], cont], "bad": [1], "seed": 6})
+    # the failed attempt is the first thing the session sees (nothing accepted yet), once and twice in a row, in both
+    # measurement modes; the continuation measures a qubit twice into the same bit, which tells the modes apart
+    twice = [("qreg", "q", 2), ("creg", "c", 2), ("apply", "x", [("q", "q", 0)], []), ("measure", ("q", "q", 0), ("q", "c", 0)),
+             ("measure", ("q", "q", 0), ("q", "c", 0)), ("apply", "h", [("q", "q", 1)], []), ("measure", ("q", "q", 1), ("q", "c", 1))]
+    for xor in (False, True):
+        for first in ([zz], [("qreg", "r", 1), zz], [("qreg", "r", 1), ("creg", "d", 1), ("measure", ("r", "r"), ("r", "d")), zz]):
+            sessions.append({"chunks": [first, twice], "bad": [0], "seed": 7, "xor": xor})
+            sessions.append({"chunks": [first, [zz], twice, cont], "bad": [0, 1], "seed": 8, "xor": xor})
+        sessions.append({"chunks": [twice, [zz], cont], "bad": [1], "seed": 9, "xor": xor})
     for _ in range(25 if tier == "quick" else 1200):
         nodes, lay = qa.gen_program(rng, nstmts=rng.randint(6, 16), max_q=5, measure_p=0.15, if_p=0.15, reset_p=0.05, gate_defs=2, depth=2)
         k = len(lay_decl_end(nodes))
@@ -480,7 +504,7 @@ def c18_cases(rng, tier):
                 continue
             failing = extra[:p] + bad_stmt + extra[p:]
             sessions.append({"chunks": accepted + [failing, good_chunk], "bad": [len(accepted)], "seed": rng.randrange(1 << 30),
-                             "rule": rule, "position": p})
+                             "rule": rule, "position": p, "xor": rng.random() < 0.25})
     return sessions
 
 
@@ -489,13 +513,13 @@ def c18_run(run, binary, sessions, tag):
     texts = []
     for i, s in enumerate(sessions):
         srcs = [qa.p_program(c) for c in s["chunks"]]
-        texts.append((str(i), "session %d %d %s" % (s["seed"], len(srcs), " ".join(qasmcheck.hexs(t) for t in srcs))))
+        texts.append((str(i), "session %s%d %d %s" % ("x" if s.get("xor") else "", s["seed"], len(srcs), " ".join(qasmcheck.hexs(t) for t in srcs))))
     impl = run_harness(binary, "qasm", texts, deadline=30.0)
     # the same sessions without the failing chunk
     texts2 = []
     for i, s in enumerate(sessions):
         srcs = [qa.p_program(c) for k, c in enumerate(s["chunks"]) if k not in s["bad"]]
-        texts2.append((str(i), "session %d %d %s" % (s["seed"], len(srcs), " ".join(qasmcheck.hexs(t) for t in srcs))))
+        texts2.append((str(i), "session %s%d %d %s" % ("x" if s.get("xor") else "", s["seed"], len(srcs), " ".join(qasmcheck.hexs(t) for t in srcs))))
     impl2 = run_harness(binary, "qasm", texts2, deadline=30.0)
 
     def parse(payload):
@@ -512,7 +536,7 @@ def c18_run(run, binary, sessions, tag):
     terms = []
     for s, o in zip(sessions, obs):
         outs = o[3]["out"] if o[0] == "ok" else []
-        terms.append("run_session %s %s" % (clist([qa.c_chunk(c) for c in s["chunks"]]), clist([cN(x) for x in outs])))
+        terms.append("run_session_x %s %s %s" % ("true" if s.get("xor") else "false", clist([qa.c_chunk(c) for c in s["chunks"]]), clist([cN(x) for x in outs])))
     vals = coqio.run_terms(terms, qasmcheck.IMPORTS, tag, shard_size=40)
     dis = []
     found = 0
@@ -525,7 +549,7 @@ def c18_run(run, binary, sessions, tag):
             for b in s["bad"]:
                 if not verdicts[b].startswith("err"):
                     fails.append("the failing chunk was accepted (%s)" % verdicts[b])
-                elif b > 0 and snaps[b] != snaps[b - 1]:
+                elif snaps[b + 1] != snaps[b]:      # snaps[0] = before any chunk, snaps[i + 1] = after chunk i
                     fails.append("the interpreter changed across the rejected chunk (accessor / Debug output differs)")
             if any(not v_.startswith("ok") for k, v_ in enumerate(verdicts) if k not in s["bad"]):
                 fails.append("a correct chunk was rejected: %s" % verdicts)
@@ -633,6 +657,17 @@ def c12_strings(rng, tier):
             if len(qs) >= len(g[2]):
                 nodes.append(("apply", g[1], rng.sample(qs, len(g[2])), [("num", "0.5")] * len(g[3])))
         out.append((qa.p_program(nodes, rng), None))
+    # every prefix of programs whose identifiers are non-ASCII wherever an identifier can stand (register, gate,
+    # formal and actual parameter names, inside parameter lists at top level and inside gate bodies)
+    prefix_progs = [
+        "gate gθ(θ, é2) a, b { rx(θ*2) a; u1(é2/π) b; cx a, b; } qreg qé[2]; creg cπ[2]; gθ(π/2, 2*pi) qé[0], qé[1]; "
+        "rx(π) qé[0]; u3(1,θ,a²) qé[1]; measure qé -> cπ; if (cπ==1) x qé[0];",
+        "qreg q[2]; creg c[2]; gate rot(t, u) a { ry(t+u) a; rz(sqrt(t)) a; } rot(pi/3, 1.5e0) q[1]; cu1(pi/4) q[0], q[1]; "
+        "measure q[0] -> c[1]; if (c==2) rot(1, 2) q[0]; reset q; barrier q;",
+    ]
+    for prog in (prefix_progs if tier != "quick" else prefix_progs):
+        for k in range(len(prog) + 1):
+            out.append((prog[:k], None))
     # K1: recorded finding (external parser recursion), one instance
     out.append(("qreg q[1]; creg c[1]; " + "if(c==0) " * 20000 + "x q[0];", "nested-if-depth>=20000"))
     # token- and byte-level mutations
